@@ -1432,6 +1432,7 @@ class Interp:
             return None
         if f.gen_yields is not None:
             f.gen_yields.append(v)
+            self.st.effect('GEN_YIELD', open_cursors=self.st.ghost.get('open_cursors', 0))
             hook = getattr(self, 'on_yield', None)
             if hook is not None:
                 hook(self, f, v)
